@@ -267,16 +267,20 @@ end step
 
 /-! ### L-BFGS-B wrapper -/
 
-/-- `LBFGSB.solve`: the start vector is `tovec` of a copy of the initial model, the objective
-handed to the optimiser evaluates the model after `update`, the optimiser's answer is written
-back with `update`.  `svc f x0 lb` is `fmin_l_bfgs_b` (returns the final point and its value);
+/-- `LBFGSB.solve` (tree after 6b9ef45): the start vector is `tovec` of a copy of the initial
+model, the objective handed to the optimiser evaluates the model after `update`, the optimiser's
+solution vector is written back with `update`, and the reported `final_f` is the objective
+evaluated once more at that solution (`lbfgsb_func_grad(final_vector)[0]`) — the value the
+optimiser itself hands back is dropped (after an abandoned line search it is the rejected
+trial's).  `svc f x0 lb` is `fmin_l_bfgs_b` (returns the final point and a value);
 `tovec` / `update` are `ktensor.tovec(False)` / `ktensor.update(all modes, ·)`. -/
 def lbfgsbSolve (tovec : Ktensor α → List α) (update : Ktensor α → List α → Ktensor α)
     (svc : (List α → α) → List α → Option α → List α × α)
     (objective : Ktensor α → α) (init : Ktensor α) (lb : Option α) : Ktensor α × α :=
   let x0 := tovec init
-  let r := svc (fun v => objective (update init v)) x0 lb
-  (update init r.1, r.2)
+  let f := fun v => objective (update init v)
+  let r := svc f x0 lb
+  (update init r.1, f r.1)
 
 /-- The options an `LBFGSB` object stores (`_solver_kwargs`): every key is always present,
 `None` is `none`.  `callback` is the identity of a user callback. -/
@@ -338,7 +342,8 @@ def updateF [Zero α] (K : Ktensor α) (data : List α) : Ktensor α :=
 vector the optimiser evaluates into the ONE model object (`model.update(...)`), so when the
 optimiser returns, the model holds the LAST EVALUATED point — which need not be the solution
 (a rejected line-search trial, a cut-off in mid line search).  The code then writes the
-optimiser's returned solution vector into it.  `svc f x0 lb` returns the pair `(x, f(x))` it
+optimiser's returned solution vector into it and evaluates the objective there once more.
+`svc f x0 lb` returns the pair `(x, value)` it
 reports and the list of points it evaluated, in order.  (The objective closure evaluates
 `update currentModel v`; `update` overwrites every factor, so that is `update init v`.) -/
 def lbfgsbSolveInPlace (tovec : Ktensor α → List α) (update : Ktensor α → List α → Ktensor α)
@@ -347,7 +352,9 @@ def lbfgsbSolveInPlace (tovec : Ktensor α → List α) (update : Ktensor α →
   let x0 := tovec init
   let r := svc (fun v => objective (update init v)) x0 lb
   let modelAfterEvals := r.2.foldl update init
-  (update modelAfterEvals r.1.1, r.1.2)
+  let written := update modelAfterEvals r.1.1       -- `model.update(..., final_vector)`
+  let evaluated := update written r.1.1             -- `lbfgsb_func_grad(final_vector)` writes it again
+  (evaluated, objective evaluated)
 
 end Opt
 end Pyttb
